@@ -76,8 +76,18 @@ BlockCases == { [kind |-> "block", n |-> t[1], sw |-> t[2], rk |-> t[3], txs |->
                  h |-> [Base EXCEPT !.root = RootOf(t[3], Txs(t[1], t[2]))]] : t \in BlockKeys }
        \cup { [kind |-> "block", n |-> t[1] + t[2], sw |-> "none", rk |-> "dupquirk", txs |-> DupTail(t[1], t[2]),
                h |-> [Base EXCEPT !.root = TxRoot(Txs(t[1], "none"))]] : t \in Quirks }
+\* a transaction with many inputs inside a block: the input COUNT crosses the one-byte compact-size boundary
+\* (252 | 253) - in a block every transaction is read by the network's own transaction parser (Litecoin's differs)
+TFat(k, nin, sw) ==
+  [T(k, sw) EXCEPT !.ins = [j \in 1..nin |-> [hash |-> Run((k + j) % 251, 32), index |-> <<j, 0>>, script |-> <<>>,
+                                              seq |-> <<65534, 65535>>,
+                                              wit |-> IF sw /\ j = nin THEN << Lit(<<7>>) >> ELSE <<>>]]]
+FatTxs(nin, sw) == [Txs(3, sw) EXCEPT ![2] = TFat(2, nin, sw = "all")]
+FatCases == { [kind |-> "block", n |-> 3, sw |-> t[2], rk |-> t[3], txs |-> FatTxs(t[1], t[2]),
+               h |-> [Base EXCEPT !.root = RootOf(t[3], FatTxs(t[1], t[2]))]] :
+               t \in {252, 253} \X {"none", "all"} \X {"good", "alien"} }
 HeaderCases == { [kind |-> "header", h |-> h] : h \in Headers }
-Cases == HeaderCases \cup BlockCases
+Cases == HeaderCases \cup BlockCases \cup FatCases
 
 \* ---------------------------------------------------------------- lemmas
 HeaderImage == c.kind = "header" =>
